@@ -383,6 +383,17 @@ def call(ctx, e, want):
         inner = f"(({expr(ctx, args[0])}).length : Nat)"
         return inner if w == "Nat" else f"({inner} : {w})"
     if fn == "sum" and len(args) == 1:
+        a0 = args[0]
+        if isinstance(a0, (ast.GeneratorExp, ast.ListComp)) and len(a0.generators) == 1 and infer(ctx, a0.elt) == "Bool":
+            # sum of booleans = number of elements satisfying the predicate
+            g = a0.generators[0]
+            out = expr(ctx, g.iter)
+            pat = pattern(g.target)
+            for cond in g.ifs:
+                out = f"(List.filter (fun {pat} => {expr(ctx, cond)}) {out})"
+            inner = f"(List.countP (fun {pat} => {expr(ctx, a0.elt)}) {out})"
+            w = want if want in NUMERIC else "Nat"
+            return inner if w == "Nat" else f"(({inner} : Nat) : {w})"
         return f"(List.sum {expr(ctx, args[0], 'List ' + (want or 'Rat'))})"
     if fn == "any" and len(args) == 1:
         return f"(List.any {expr(ctx, args[0])} id)"
@@ -508,6 +519,8 @@ def block(ctx: Ctx, stmts, ret_wrap, ind="  ") -> str:
         return for_loop(ctx, s, rest, ret_wrap, ind)
     m = mutated_name(s)
     if m is not None:
+        if m not in (set(getattr(ctx, "defined", set())) | {p for p, _ in ctx.all_params}):
+            raise Untranslatable(f"mutation of {m} before its definition")
         return mutation(ctx, s, m) + f"\n{ind}" + block(ctx, rest, ret_wrap, ind)
     if is_log(s) or (isinstance(s, ast.Expr) and isinstance(s.value, ast.Constant)) or isinstance(s, ast.Pass):
         return block(ctx, rest, ret_wrap, ind)
@@ -773,7 +786,8 @@ def for_loop(ctx, node, rest, ret_wrap, ind):
         raise Untranslatable("for ... else")
     it_expr, pat, tgt_types, et = loop_iter(ctx, node)
     body = list(node.body)
-    state = [v for v in assigned(body) if v not in tgt_types and ctx.typ(v) is not None]
+    known = set(getattr(ctx, "defined", set())) | {p for p, _ in ctx.all_params}
+    state = [v for v in assigned(body) if v not in tgt_types and v in known]
     for v in state:
         if ctx.typ(v) in (None, "List _"):
             raise Untranslatable(f"loop state variable {v} has no concrete type")
@@ -791,7 +805,7 @@ def for_loop(ctx, node, rest, ret_wrap, ind):
     ctx.loop_counter += 1
     k = ctx.loop_counter
     aux_name = f"{ctx.fn_name}_loop{k}"
-    fixed = " ".join(li(p) for p, _ in params + frees if not p.startswith("{"))
+    fixed = " ".join(li(p) for p, _ in params + frees if not p.startswith(("{", "[")))
     st_names = [li(v) for v in state]
     st_types = [ctx.typ(v) for v in state]
     if not state:
@@ -824,7 +838,7 @@ def for_loop(ctx, node, rest, ret_wrap, ind):
     sub.raise_wrap_fn = ctx.raise_wrap_fn
     body_txt = block(sub, body, body_ret, "    ")
     ctx.loop_counter = sub.loop_counter
-    sig = " ".join((f"{{{p[1:-1]} : {t}}}" if p.startswith("{") else f"({li(p)} : {t})") for p, t in params + frees)
+    sig = " ".join((f"{{{p[1:-1]} : {t}}}" if p.startswith("{") else p if p.startswith("[") else f"({li(p)} : {t})") for p, t in params + frees)
     st_sig = " → ".join(f"({t})" for t in st_types)
     arrow = f"List ({et}) → " + (st_sig + " → " if st_types else "")
     pats_nil = ", ".join(["[]"] + st_names)
@@ -899,7 +913,7 @@ def translate_function(
     ctx.raise_wrap_fn = lambda n: f'.error "{n}"'
     ctx.defined = set()
     body = block(ctx, stmts, wrap)
-    sig = " ".join((f"{{{k[1:-1]} : {v}}}" if k.startswith("{") else f"({li(k)} : {v})") for k, v in list(extra_params) + list(params.items()))
+    sig = " ".join((f"{{{k[1:-1]} : {v}}}" if k.startswith("{") else k if k.startswith("[") else f"({li(k)} : {v})") for k, v in list(extra_params) + list(params.items()))
     return "\n".join(ctx.aux) + ("\n" if ctx.aux else "") + f"def {lean_name} {sig} : {rty} :=\n  {body}\n"
 
 
